@@ -104,6 +104,9 @@ func Families() []Named {
 		// a nonterminal that is nullable only through a non-empty rule written BEFORE the rules that make
 		// its parts nullable (several fixpoint passes needed), last production not an epsilon rule
 		{"nullable-late", Parse("S", abc[:4], "S: X N TA ; N: M ; M: A B ; A: | TB ; B: | TC ; X: TD")},
+		// no %start: the documented default start symbol is the nonterminal named `start`
+		// (which is also the name of yaccgo's internal augmented symbol)
+		{"default-start", Parse("", abc[:2], "start: start TA A | A ; A: TB | ")},
 		{"nonassoc-cmp", Parse("E", []string{"TA"}, "E: E '<' E | E '+' E | TA").WithPrec("nonassoc '<'", "left '+'")},
 	}
 }
